@@ -12,8 +12,13 @@ def register(add):
     add('bn_size_bin@p128', ['C07'], 'bn_size_bin', sources=[UTIL], decls='bn_st *a;', call='bn_size_bin(a)', **common)
     add('bn_read_bin@p128', ['C07', 'C08'], 'bn_read_bin', sources=[UTIL], decls='bn_st *a; const uint8_t *bin; size_t len;',
         call='bn_read_bin(a, bin, len)', replace=['bn_grow', 'bn_zero', 'bn_trim'], **common)
-    add('bn_write_bin@p128', ['C07', 'C08'], 'bn_write_bin', sources=[UTIL], decls='bn_st *a; uint8_t *bin; size_t len;',
-        call='bn_write_bin(bin, len, a)', replace=['bn_size_bin'], defines=['VC_FIXED_BYTEBUF'], timeout=400, **common)
+    w8b = dict(headers=H, conf='w8', route='proof', unwind=14,
+               bound_note='configuration w8 (8-bit digits, RLC_BN_SIZE=10): buffers up to 12 bytes; loops unwound completely. '
+               'The 64-bit configurations time out on this function (writes at symbolic offsets)')
+    add('bn_write_bin@w8', ['C07', 'C08'], 'bn_write_bin', sources=[UTIL], decls='bn_st *a; uint8_t *bin; size_t len;',
+        call='bn_write_bin(bin, len, a)', replace=['bn_size_bin'], timeout=400, **w8b)
+    add('bn_read_bin@w8', ['C07', 'C08'], 'bn_read_bin', sources=[UTIL], decls='bn_st *a; const uint8_t *bin; size_t len;',
+        call='bn_read_bin(a, bin, len)', replace=['bn_grow', 'bn_zero', 'bn_trim'], **w8b)
     add('bn_size_raw@p128', ['C07'], 'bn_size_raw', sources=[UTIL], decls='bn_st *a;', call='bn_size_raw(a)', **common)
     rawc = dict(common, unwind=10)
     add('bn_read_raw@p128', ['C07', 'C08'], 'bn_read_raw', sources=[UTIL], decls='bn_st *a; const dig_t *raw; size_t len;',
